@@ -123,6 +123,26 @@ func (g *G) Find(n ast.Node) (Loc, bool) {
 	return best, bestLen >= 0
 }
 
+// FirstIn returns the location of the CFG node inside statement n that has the
+// smallest position (the first one executed for if/for/switch/simple
+// statements).
+func (g *G) FirstIn(n ast.Node) (Loc, bool) {
+	best, found := Loc{}, false
+	for _, b := range g.C.Blocks {
+		if !b.Live {
+			continue
+		}
+		for i, m := range b.Nodes {
+			if n.Pos() <= m.Pos() && m.End() <= n.End() {
+				if !found || m.Pos() < g.Node(best).Pos() {
+					best, found = Loc{b, i}, true
+				}
+			}
+		}
+	}
+	return best, found
+}
+
 // Locs returns the locations whose node satisfies pred (pred is given the CFG
 // node; use Contains helpers to look inside).
 func (g *G) Locs(pred func(n ast.Node) bool) []Loc {
@@ -328,6 +348,12 @@ func (g *G) GuardedByGen(target Loc, holds func(cond ast.Expr, truth bool) bool,
 // flips the polarity.
 func Implied(cond ast.Expr, truth bool, holds func(atom ast.Expr, truth bool) bool) bool {
 	cond = ast.Unparen(cond)
+	if be, ok := cond.(*ast.BinaryExpr); ok && (be.Op == token.LAND || be.Op == token.LOR) {
+		// the caller may recognise the compound condition as a whole
+		if holds(cond, truth) {
+			return true
+		}
+	}
 	switch e := cond.(type) {
 	case *ast.UnaryExpr:
 		if e.Op == token.NOT {
